@@ -33,7 +33,7 @@ ASSUMPTIONS = [
     "delimiters are non-empty; text inputs are complete encodings (no truncated trailing character)",
     "the logical stream is built by the harness from the chunks it hands over and the feed_data arguments",
 ]
-TECHNIQUE = ("exhaustive small-domain enumeration + Hypothesis histories (+ atheris-driven in thorough when available); "
+TECHNIQUE = ("exhaustive small-domain enumeration + Hypothesis histories (+ atheris coverage-guided campaigns over the same strategy in thorough); "
              "prefix/round-trip invariant against the harness-built logical stream")
 LEVEL_TEXT = ("After every call: bytes handed out (delimiters re-inserted) + stream.buffer == logical stream so far; "
               "per-call contracts of receive/receive_exactly/receive_until; final drain returns everything. Text: "
